@@ -842,6 +842,15 @@ func (c *Ctx) dischargeBound(s boundSite) (string, bool) {
 				}
 			}
 		}
+		// (d) index found by slices.Index / IndexFunc / BinarySearch-free search on the same slice and tested >= 0
+		if ic, ok := s.idx.(*ssa.Call); ok && len(ic.Call.Args) >= 1 {
+			switch genericBase(calleeName(ic)) {
+			case "slices.IndexFunc", "slices.Index":
+				if sameLen(ic.Call.Args[0], s.x) && c.indexFound(ic, blk) {
+					return "idx = " + genericBase(calleeName(ic)) + "(x, ...) known >= 0", true
+				}
+			}
+		}
 		// (e) variable index under i < len(x)
 		if c.varBelowLen(s.f, s.idx, s.x, blk, 0) {
 			return "index below len of the same value", true
@@ -963,6 +972,12 @@ func (c *Ctx) indexFound(ic *ssa.Call, blk *ssa.BasicBlock) bool {
 			}
 		}
 		if k, isK := constInt(bo.Y); isK && k == 0 && bo.Op == token.GEQ && c.condAt(bo, true, blk) {
+			return true
+		}
+		if k, isK := constInt(bo.Y); isK && k == 0 && bo.Op == token.LSS && c.condAt(bo, false, blk) {
+			return true
+		}
+		if k, isK := constInt(bo.Y); isK && k == -1 && bo.Op == token.GTR && c.condAt(bo, true, blk) {
 			return true
 		}
 	}
@@ -1285,6 +1300,40 @@ func ruleC15_5(c *Ctx) {
 			case *ssa.UnOp:
 				ok = strings.Contains(org(recv), "visitedSymlinks")
 				why = "visited set passed down from RecordArtifacts (NewSet(), R-C13-3)"
+				// a variable of the enclosing function captured by this closure: every store into it is a made set
+				if fv, isFV := x.X.(*ssa.FreeVar); isFV && !ok && f.Parent() != nil {
+					for _, pb := range f.Parent().Blocks {
+						for _, pin := range pb.Instrs {
+							mc, isMC := pin.(*ssa.MakeClosure)
+							if !isMC || mc.Fn != ssa.Value(f) {
+								continue
+							}
+							for i, v := range f.FreeVars {
+								if v != fv || i >= len(mc.Bindings) {
+									continue
+								}
+								if al, isAl := mc.Bindings[i].(*ssa.Alloc); isAl {
+									sts := storesTo(al)
+									made := len(sts) > 0
+									for _, st := range sts {
+										switch sv := resolve(st.Val, st).(type) {
+										case *ssa.Call:
+											if calleeName(sv) != "in_toto.NewSet" {
+												made = false
+											}
+										case *ssa.MakeMap:
+										default:
+											made = false
+										}
+									}
+									if made {
+										ok, why = true, "captured variable that only ever holds a made set"
+									}
+								}
+							}
+						}
+					}
+				}
 			}
 			c.check(ok, R, fname(f), "Set.Add receiver "+short(org(recv)), call.Pos(), why, "Add is called on a Set that may be nil")
 		}
